@@ -48,7 +48,7 @@ def floors(tier):
 
 
 def plan(tier, seed):
-    return [{"part": i} for i in range(16)]
+    return [{"part": i} for i in range(16)] + [{"what": "race", "suites": ["reader"]}]
 
 
 OPTS = st.fixed_dictionaries({
@@ -68,6 +68,10 @@ def case_strategy():
 
 
 def check(case) -> core.Out:
+    if isinstance(case, dict) and case.get("kind") == "race":
+        from vp.props import racing
+
+        return racing.check_race(PROP, case)
     items, opts = case["items"], dict(case["opts"])
     source = opts.pop("source", "bytesio")
     usage = opts.pop("usage", "once")
@@ -191,6 +195,12 @@ def check(case) -> core.Out:
 
 
 def run_shard(spec, ctx, acc):
+    if spec.get("what") == "race":
+        # steady-state concurrency (see vp/props/racing.py)
+        for suite in spec["suites"]:
+            case = {"kind": "race", "suite": suite, "seconds": 1.2 if ctx["tier"] == "quick" else 20}
+            core.handle(acc, check(case), case, set(ctx["known"]))
+        return
     known = set(ctx["known"])
     n = 300 if ctx["tier"] == "quick" else 6000
     core.hyp_search(acc, case_strategy(), check, seed=core.derive(ctx["seed"], PROP, spec["part"]),
